@@ -168,7 +168,10 @@ func c17Gen(t *rapid.T) c17Case {
 			if a, ok := refmodel.ArityOf(ln); ok && docs.Supported[ln] && rapid.IntRange(0, 2).Draw(t, "atboundary") > 0 {
 				// around the arity boundary
 				base := refmodel.ValidNargs(ln, 0)
-				nargs = maxInt(0, base+rapid.SampledFrom([]int{-1, 0, 0, 1, 2}).Draw(t, "adelta"))
+				nargs = maxInt(0, base+rapid.SampledFrom([]int{-1, 0, 0, 1, 2, 255, 256, 257, 512, 65536}).Draw(t, "adelta"))
+				if nargs > 300 && limit > 0 && limit < 70000 {
+					nargs = base + 256 // keep the request near the small limits' scale
+				}
 				_ = a
 			} else {
 				nargs = rapid.IntRange(0, 6).Draw(t, "nargs")
